@@ -42,7 +42,7 @@ Outcomes(S, Dk, a) ==
       [] a.act = "Expire"       -> D!ExpireOut(S, a.a)
       [] a.act = "AddStatic"    -> D!AddStaticOut(S, a.m, a.a, a.h)
       [] a.act = "UpdateStatic" -> D!UpdateStaticOut(S, a.m, a.a, a.h)
-      [] a.act = "RemoveStatic" -> D!RemoveStaticOut(S, a.m, a.a)
+      [] a.act = "RemoveStatic" -> D!RemoveStatic4Out(S, a.m, a.a)
       [] a.act = "Restart"      -> D!RestartOut(Dk)
       [] OTHER                  -> {}
 
